@@ -216,7 +216,8 @@ func decodeKeyCharByEscapedChar(buf []byte, cursor int64) ([]byte, int64, error)
 	case 'u':
 		return decodeKeyCharByUnicodeRune(buf, cursor)
 	}
-	return nil, cursor, nil
+	// not an escape sequence of JSON: the string decoder reports the same text as an error
+	return nil, cursor, errors.ErrInvalidCharacter(c, "escaped string", cursor)
 }
 
 func decodeKeyByBitmapUint8(d *structDecoder, buf []byte, cursor int64) (int64, *structFieldSet, error) {
